@@ -160,6 +160,15 @@ Theorem C17_linear_nice_ends_are_first_last_major : forall base eb mn mx o g g3 
 Proof. exact lin_nice_ends_are_first_last_major. Qed.
 Print Assumptions C17_linear_nice_ends_are_first_last_major.
 
+(* FOR Max >= 3 NICE ALWAYS FINDS A LEVEL: whenever the top level of the window has a spacing
+   wider than the domain (with the default limits that is Base^500) *)
+Theorem C17_linear_nice_finds_level_for_max_ge_3 : forall base eb mn mx o g lo hi,
+  lin_ebase base = Some eb -> mn < mx -> level_bounds o = Some (lo, hi) -> (3 <= o_max o)%Z ->
+  mx - mn < lin_spacing base eb hi ->
+  exists l, find_level o (lin_count base eb mn mx true) g = FL_ok l.
+Proof. exact lin_nice_finds_level. Qed.
+Print Assumptions C17_linear_nice_finds_level_for_max_ge_3.
+
 (* non-vacuity of the three: [0.3, 2.7], Max 4: Nice -> [0, 3] at level 0, again [0, 3];
    Ticks on [0, 3] = 0, 1, 2, 3 *)
 Example C17_linear_nice_example :
